@@ -33,6 +33,12 @@ def _with_exit_offsets(code):
                     ins[j - 1].opname in ('SWAP', 'COPY', 'POP_TOP', 'NOP'):
                 j -= 1
                 out.add(ins[j].offset)
+    # the exceptional path: when the block raises, control reaches PUSH_EXC_INFO; WITH_EXCEPT_START on the line of the
+    # `with` statement (a line event fires there); an exception raised at that event is handled by the outer
+    # clean-up entry, which does not call __exit__ either
+    for i in range(len(ins) - 1):
+        if ins[i].opname == 'PUSH_EXC_INFO' and ins[i + 1].opname == 'WITH_EXCEPT_START':
+            out.add(ins[i].offset)
     return frozenset(out)
 
 
@@ -130,10 +136,23 @@ class SimLock(object):
                 raise RuntimeError('dead-lock in the system under test: the only caller waits for a lock that is '
                                    'already held (left locked by an earlier call?)')
             return self._real.acquire(blocking, timeout)
+        timed = blocking and timeout is not None and timeout >= 0
+        n = 0
         while not self._real.acquire(False):
             if not blocking:
                 return False
-            s._blocked_on_lock(s.current, sys._getframe(1), self)
+            if timed:
+                # acquire(timeout=...): simulated time passes while others run; give up after a bounded number
+                # of hand-overs, or at once when nobody else can run
+                n += 1
+                if n > 50:
+                    return False
+                try:
+                    s._blocked_on_lock(s.current, sys._getframe(1), None)
+                except RuntimeError:
+                    return False
+            else:
+                s._blocked_on_lock(s.current, sys._getframe(1), self)
         return True
 
     def release(self):
